@@ -1163,3 +1163,10 @@ pub fn for_each_value_mut(atoms: &mut [Atom], f: &mut dyn FnMut(Id, bool, &mut V
         }
     }
 }
+
+/// One derivation in which the spec consumes at least one item
+pub fn derive_present(spec: &Spec, g: &mut Gen) -> Option<Deriv> {
+    let mut atoms = Vec::new();
+    let value = go(spec, g, true, &mut atoms)?;
+    Some(Deriv { atoms, value })
+}
